@@ -100,6 +100,7 @@ def gen_case(rng: random.Random, tier: str, bias: str = ''):
     case['falsy_src'] = case['seed'] % 5 == 0
     # (parmap) two iterations of the same stream object alive at once, see run_case
     case['overlap'] = kind == 'parmap' and case['seed'] % 7 == 0
+    case['nested'] = kind == 'parmap' and case['seed'] % 7 == 3
     return case
 
 
@@ -258,6 +259,26 @@ def run_case(case):
                     return_exceptions=case['rexc'], preprocessor=pre if case['pre'] else None)
                 box = [iter(stream)]
                 end = consume(box, out)
+                if case.get('nested'):
+                    # The worker function of a thread-mode parmap runs a thread-mode parmap of its own (same default name,
+                    # same concurrency), with at least `concurrency` outer elements in flight: every stage has its own
+                    # workers, so the outer stream delivers one output per input (judged directly; not replayed).
+                    state['second'] = True
+                    state['in_nested'] = True
+
+                    def inner(x):
+                        detsched.yield_here('inner')
+                        return x + 1
+
+                    def outer(x):
+                        return sum(Stream([x, x + 1]).parmap(inner, executor='thread', concurrency=conc))
+                    m = 2 * conc + 1
+                    src3 = list(range(m))
+                    got3 = list(Stream(src3).parmap(outer, executor='thread', concurrency=conc))
+                    if got3 != [2 * x + 3 for x in src3]:
+                        state['overlap_problem'] = f'nested thread-mode parmap over {m} elements delivered {got3}'
+                    state['in_nested'] = False
+                    state['second'] = False
                 if case.get('overlap'):
                     # Two iterations of ONE parmap stream object over a re-iterable source, alive at the same time: the
                     # first is advanced by one element, the second is consumed completely, then the first is finished.
@@ -378,6 +399,9 @@ def run_case(case):
         if isinstance(e, detsched.Deadlock):
             res['deadlock'] = e.args[0] if e.args else None
             mon.append(dict(prop='C05', rule='hang', detail=f'deadlock/livelock: {res["deadlock"]}'))
+            if state.get('in_nested'):
+                mon.append(dict(prop='C01', rule='nested-hang', detail='a thread-mode parmap whose worker function runs a thread-mode parmap '
+                                                                      f'of its own never delivers its outputs: {res["deadlock"]}'))
         else:
             res['error'] = repr(e)
             mon.append(dict(prop='C05', rule='unexpected-exception', detail=repr(e)))
